@@ -139,6 +139,8 @@ def pair_random(vd, tier, sd, tag, pollat=True, probe=False):
             a.append("--probe")
         if k % 4 == 3:
             a.append("--small")
+        if tag == "c08":
+            a.append("--burst")
         if tier == "thorough" and k % 4 == 2:
             # long transfers: fewer runs, or the traces run into gigabytes
             a += ["--maxbytes", 600000]
@@ -225,7 +227,7 @@ def replay_generic(obj, vd, prop):
             a.append("--pollat")
         flags = list(obj["ctx"].get("flags", []))
         ar = ev0.get("args", {})
-        for k in ("small", "probe", "zwr", "ackloss", "edge"):
+        for k in ("small", "probe", "zwr", "ackloss", "edge", "burst"):
             if ar.get(k) and "--" + k not in flags:
                 flags.append("--" + k)
         if ar.get("maxbytes") and ar["maxbytes"] != 20000:
